@@ -13,6 +13,7 @@ let re_answer p t n =
   (* both are C strings for the implementation: they end at their first 0 byte *)
   let rec cstr = function [] -> [] | c :: r -> if c = Z0 then [] else c :: cstr r in
   let pat = cstr (bytes_of_hex p) and text = cstr (bytes_of_hex t) in
+  if re_refused pat then "nocompile" else                 (* the estimate exceeds the limit: refused before anything is compiled *)
   if int_of_z (re_size pat) > re_big then "BIG" else
   match re_query pat text (z_of_int n) with
   | Oob i -> "OOB " ^ string_of_z i
